@@ -428,6 +428,52 @@ func nmoveSweeps(p *Prog, r *Report, rule string) {
 		}
 	}
 	r.Ob("uptake:removed", "-", okTake, fmt.Sprintf("the layer's mineral N is reduced by PE of the same layer: %v", okTake))
+	// what leaves the layer is booked: the removal and the two bookings run under the same conditions (a guard around
+	// the bookings only — "rooted layers", say — lets the harvest-day uptake leave the soil uncounted: the harvest
+	// block has reset the rooting depth before the transport routine runs)
+	{
+		var take *Event
+		var books []*Event
+		for _, e := range x.Events {
+			if e.Kind != "assign" || len(e.Loops) != 1 {
+				continue
+			}
+			d := stripVersions(e.Val.Sub(e.Old))
+			if e.Root == "GlobalVarsMain.C1" && len(e.Idx) == 1 && d.Add(cellP("GlobalVarsMain.PE", e.Idx[0])).IsZero() {
+				take = e
+			}
+			if (e.Root == "GlobalVarsMain.PESUM" || e.Root == "GlobalVarsMain.AUFNASUM") && d.MentionsRoot("GlobalVarsMain.PE") {
+				books = append(books, e)
+			}
+		}
+		same := take != nil && len(books) >= 2
+		det := ""
+		if take != nil {
+			tk := map[string]bool{}
+			for _, g := range flattenGuards(take.Guards) {
+				tk[g.Key()] = true
+			}
+			for _, b := range books {
+				bk := map[string]bool{}
+				for _, g := range flattenGuards(b.Guards) {
+					bk[g.Key()] = true
+					if !tk[g.Key()] {
+						same = false // the booking has a condition the removal does not have
+					}
+				}
+				for _, g := range flattenGuards(take.Guards) {
+					// the removal's own non-negativity arm (C1 − PE ≥ 0; the other arm stores 0) is the one extra condition
+					if !bk[g.Key()] && !(g.Kind == "cmp" && g.P.MentionsRoot("GlobalVarsMain.C1") && g.P.MentionsRoot("GlobalVarsMain.PE")) {
+						same = false
+					}
+				}
+				if !same && det == "" {
+					det = fmt.Sprintf("booking at %s under [%s], removal under [%s]", p.Pos(b.Pos), clip(guardKeys(b.Guards), 120), clip(guardKeys(take.Guards), 120))
+				}
+			}
+		}
+		r.Ob("uptake:booked-where-removed", "-", same, fmt.Sprintf("the uptake is removed from the layer and booked into the crop's N and the cumulative uptake under the same conditions: %v %s", same, det))
+	}
 	// fixation credit: added
 	nf := 0
 	for _, e := range x.Events {
